@@ -197,6 +197,11 @@ class Routes:
                     self.cmp("Array[list of tuples].GetValues", lt, rr + rr, case, au, av, vals + vals, list)
                     tt = Array(c, (tuple(vals), tuple(vals)), u).GetValues(v)
                     self.cmp("Array[tuple of tuples].GetValues", tt, rr + rr, case, au, av, vals + vals, tuple)
+                    # a single row is still a container of rows
+                    l1 = Array(c, [tuple(vals)], u).GetValues(v)
+                    self.cmp("Array[list of one tuple].GetValues", l1, rr, case, au, av, vals, list)
+                    t1 = Array(c, (tuple(vals),), u).CreateCopy(unit=v).GetValues()
+                    self.cmp("Array[tuple of one tuple].CreateCopy(unit)", t1, rr, case, au, av, vals, tuple)
                 if n >= 2:
                     # ragged rows (unequal lengths, an empty row) convert row by row too
                     rag = [tuple(vals), tuple(vals[:1]), (), tuple(vals[1:])]
